@@ -108,6 +108,11 @@ func addNotes(t *rapid.T, m *ref.SNode, st *gen.Style) {
 		if rapid.IntRange(0, 4).Draw(t, "note") == 0 {
 			n.Note = rapid.SampledFrom(texts).Draw(t, "noteText")
 		}
+		if n.Kind == ref.SLit && n.Lit == ref.KNull && len(n.Rules) == 0 && rapid.IntRange(0, 1).Draw(t, "typeNull") == 0 {
+			// the type rule written with the bare literal (the schema language takes it): the rule comes
+			// back with the kind of token it was written with
+			n.Rules = append(n.Rules, gen.TokRule("type", "null"))
+		}
 		if !st.MultiLine {
 			return
 		}
